@@ -136,7 +136,7 @@ func init() {
 
 	issue.Hard(EqualityAttributeNotFound, `%{label} equality is referencing non existent attribute '%{attribute}'`)
 
-	issue.Hard(EqualityNotAttribute, `{label} equality is referencing %{attribute}. Only attribute references are allowed`)
+	issue.Hard(EqualityNotAttribute, `%{label} equality is referencing %{member}. Only attribute references are allowed`)
 
 	issue.Hard(EqualityOnConstant, `%{label} equality is referencing constant %{attribute}.`)
 
@@ -250,7 +250,7 @@ func init() {
 
 	issue.Hard(SerializationAttributeNotFound, `%{label} serialization is referencing non existent attribute '%{attribute}'`)
 
-	issue.Hard(SerializationNotAttribute, `{label} serialization is referencing %{attribute}. Only attribute references are allowed`)
+	issue.Hard(SerializationNotAttribute, `%{label} serialization is referencing %{member}. Only attribute references are allowed`)
 
 	issue.Hard(SerializationBadKind, `%{label} equality is referencing {kind} %{attribute}.`)
 
